@@ -863,6 +863,24 @@ def c09_family(tier, rnd):
         main = [Text("pre"), Open(name="span", define=[(True, "g", al.call("define", [S("a")]))], sattr=[]), Text("d", *_P()), CLOSE] + use + \
             [Text("mid", *_P())] + (mk_use("m1", 1, [], tag="article") if twice else []) + [Text("post", *_P())]
         build(main, m, al, "P2g:%s" % twice)
+    # P2h: a caller's local (define / repeat variable) that shadows an earlier global keeps its value across a macro call;
+    # what the macro (or a filler) defines globally during the call is published
+    for shadow in ("define", "repeat"):
+        for macro_global in (False, True):
+            al = Alloc(tier)
+            m = mk_macro(al, "m1", ["a"], global_def=macro_global)
+            use = mk_use("m1", 1, [mk_fill("a", "a1")])
+            kw = {"define": [(False, "x", al.call("define", [S("b")]))]} if shadow == "define" else \
+                {"rep": (False, "x", al.call("repeat", [SEQ([S("b"), S("c")])]))}
+            main = [Text("pre"), Open(name="span", define=[(True, "x", al.call("define", [S("a")]))], sattr=[]), Text("d", *_P()), CLOSE,
+                    Open(name="ul", sattr=[], **kw), Text("l", *_P())] + use + [Text("r", *_P()), CLOSE, Text("post", *_P())]
+            build(main, m, al, "P2h:%s:%s" % (shadow, macro_global))
+    # P2f: a global defined inside a filler is visible in the rest of the macro and afterwards in the caller
+    al = Alloc(tier)
+    m = [Open(dm="m1", name="div", sattr=[]), Text("M", *_P()), Open(ds="a", name="i", sattr=[]), Text("Da"), CLOSE, Text("n", *_P()), CLOSE]
+    fill = [Open(fs="a", name="b", define=[(True, "g", al.call("define", [S("a")]))], sattr=[]), Text("F", *_P()), CLOSE]
+    main = [Text("pre", *_P()), Open(um=("m1", 1, False), name="section", sattr=[]), Text("ign")] + fill + [CLOSE, Text("post", *_P())]
+    build(main, m, al, "P2f")
     # P3: a filler that uses another macro; fillers naming slots of the inner macro only
     for outer_fill in (["a"], ["a", "c"], ["c"]):
         al = Alloc(tier)
